@@ -94,10 +94,12 @@ Definition tar_kids (path : list bytes) : list (bytes * tree) -> option (list (b
     match ch with
     | [] => Some []
     | (nm, c) :: r =>
-        match tar_tree (path ++ [nm]) nm c, kids r with
-        | Some els, Some rs => Some ((nm, els) :: rs)
-        | _, _ => None
-        end
+        if archived c then
+          match tar_tree (path ++ [nm]) nm c, kids r with
+          | Some els, Some rs => Some ((nm, els) :: rs)
+          | _, _ => None
+          end
+        else kids r
     end.
 
 Lemma tar_tree_dir path name a ch :
@@ -118,10 +120,19 @@ Proof. reflexivity. Qed.
 
 Lemma tar_kids_cons path nm c r :
   tar_kids path ((nm, c) :: r) =
-    match tar_tree (path ++ [nm]) nm c, tar_kids path r with
-    | Some els, Some rs => Some ((nm, els) :: rs)
-    | _, _ => None
-    end.
+    if archived c then
+      match tar_tree (path ++ [nm]) nm c, tar_kids path r with
+      | Some els, Some rs => Some ((nm, els) :: rs)
+      | _, _ => None
+      end
+    else tar_kids path r.
+Proof. reflexivity. Qed.
+
+(* the children tar() writes something for *)
+Definition arch_kids (ch : list (bytes * tree)) : list (bytes * tree) := filter (fun p => archived (snd p)) ch.
+
+Lemma arch_kids_cons nm c r :
+  arch_kids ((nm, c) :: r) = if archived c then (nm, c) :: arch_kids r else arch_kids r.
 Proof. reflexivity. Qed.
 
 Definition kid_stream (p : bytes * list elem) : list elem := filename_elem (GoPath.base (fst p)) :: snd p.
@@ -256,11 +267,11 @@ Qed.
 Definition kid_rel (path : list bytes) (p : bytes * tree) (q : bytes * list elem) : Prop :=
   fst q = fst p /\ tar_tree (path ++ [fst p]) (fst p) (snd p) = Some (snd q).
 
-Lemma tar_kids_spec path : forall ch enc, tar_kids path ch = Some enc -> Forall2 (kid_rel path) ch enc.
+Lemma tar_kids_spec path : forall ch enc, tar_kids path ch = Some enc -> Forall2 (kid_rel path) (arch_kids ch) enc.
 Proof.
   induction ch as [|[nm c] r IH]; intros enc E.
   - cbn in E. inversion E. constructor.
-  - rewrite tar_kids_cons in E.
+  - rewrite tar_kids_cons in E. rewrite arch_kids_cons. destruct (archived c); [|apply IH, E].
     destruct (tar_tree (path ++ [nm]) nm c) as [els|] eqn:Ec; [|discriminate].
     destruct (tar_kids path r) as [rs|] eqn:Er; [|discriminate].
     inversion E; subst. constructor; [split; [reflexivity|exact Ec]|apply IH; reflexivity].
@@ -291,19 +302,20 @@ Lemma tar_tree_total : forall t, wf_tree t -> forall path name,
 Proof.
   induction t as [a ch IH|a d|a tg|a r|a] using tree_ind'; intros Hwf path name.
   - apply wf_tree_dir in Hwf. destruct Hwf as (Ha & Hty & Hlen & Hk).
-    assert (Hkids : exists enc, tar_kids path ch = Some enc /\ length enc = length ch /\
+    assert (Hkids : exists enc, tar_kids path ch = Some enc /\ (length enc <= length ch)%nat /\
                                 Forall (fun q => small (fst q) /\ GoPath.base (fst q) = fst q /\ Forall wf_elem (snd q)) enc).
     { clear Hlen. induction ch as [|[nm c] r IHr]; [exists []; repeat split; constructor|].
       inversion IH as [|? ? Hc Hr]; subst. inversion Hk as [|? ? [Hn Hwc] Hkr]; subst. cbn [fst snd] in *.
       destruct (Hc Hwc (path ++ [nm]) nm) as (els & Ee & Hwe).
       destruct (IHr Hr Hkr) as (rs & Er & Hlr & Hwr).
-      exists ((nm, els) :: rs). rewrite tar_kids_cons, Ee, Er. repeat split; [cbn; now rewrite Hlr|].
+      rewrite tar_kids_cons. destruct (archived c); [|exists rs; repeat split; [exact Er|cbn [length]; lia|exact Hwr]].
+      exists ((nm, els) :: rs). rewrite Ee, Er. repeat split; [cbn [length]; lia|].
       constructor; [|exact Hwr]. cbn [fst snd]. repeat split; [apply Hn|apply base_good_name; exact Hn|exact Hwe]. }
     destruct Hkids as (enc & Ek & Hle & Hwenc).
     rewrite tar_tree_dir. cbv zeta. rewrite Ek.
     destruct (dir_body_spec enc (esize (head_elems (event_of path name (TDir a ch)))) [] []) as (n' & items' & E & Hli & Hwi).
     rewrite E. cbn [app].
-    assert (Hli' : N.of_nat (length items') < 2 ^ 32) by (rewrite Hli, Hle; exact Hlen).
+    assert (Hli' : N.of_nat (length items') < 2 ^ 32) by (rewrite Hli; lia).
     destruct (goodbye_of_wf n' items' Hwi Hli') as (g & Eg & Hwg & _).
     rewrite Eg. eexists. split; [reflexivity|].
     apply Forall_app. split; [apply (head_elems_wf path name (TDir a ch)); exact Ha|].
@@ -541,6 +553,16 @@ Proof. reflexivity. Qed.
 Lemma tar_tree_other path name a : tar_tree path name (TOther a) = Some [].
 Proof. reflexivity. Qed.
 
+Lemma forall_filter {A} (P : A -> Prop) f l : Forall P l -> Forall P (filter f l).
+Proof. intros H. rewrite Forall_forall in *. intros x Hx. apply filter_In in Hx. apply H, Hx. Qed.
+
+(* fifos and sockets contribute no node *)
+Lemma kids_nodes_arch d ch : kids_nodes d (arch_kids ch) = kids_nodes d ch.
+Proof.
+  unfold kids_nodes. induction ch as [|[k c] r IH]; [reflexivity|].
+  rewrite arch_kids_cons. cbn [flat_map]. destruct c; cbn [archived flat_map nodes_of app]; rewrite ?IH; reflexivity.
+Qed.
+
 Lemma node_goal_all : forall c, node_goal c.
 Proof.
   induction c as [a ch IH|a dt|a tg|a r|a] using tree_ind'; intros path name els Etar Hwf d nm rest ns Hgn Hdel Hruns.
@@ -554,8 +576,8 @@ Proof.
     + rewrite (filename_step d true nm _ Hgn).
       rewrite (head_run d true path name (TDir a ch) nm _ Ha). cbn [tree_attrs].
       rewrite E0. rewrite (dir_return d true a nm c0 r0 Hd0 (good_name_ok _ _ Hgn)). rewrite (join_good d nm Hgn). reflexivity.
-    + rewrite <- E0. fold (kids_nodes (d ++ [nm]) ch).
-      apply (kids_run path ch enc Hrel IH Hk); [apply Hdel|].
+    + rewrite <- E0. fold (kids_nodes (d ++ [nm]) ch). rewrite <- kids_nodes_arch.
+      apply (kids_run path (arch_kids ch) enc Hrel (forall_filter _ _ _ IH) (forall_filter _ _ _ Hk)); [apply Hdel|].
       eapply lruns_ext; [|exact Hruns]. rewrite goodbye_step. rewrite removelast_last. reflexivity.
   - (* file *)
     destruct Hwf as (Ha & Hty & Hs). rewrite tar_tree_file in Etar. injection Etar as <-.
@@ -608,10 +630,10 @@ Proof.
     + unfold lnext. change locals0 with (set_name locals0 []).
       etransitivity; [exact (head_run [] false [] [] (TDir a ch) [] _ Ha)|]. cbn [tree_attrs].
       rewrite E0. rewrite (dir_return [] false a [] c0 r0 Hd0 (or_intror eq_refl)). reflexivity.
-    + cbn [join]. rewrite <- E0. fold (kids_nodes [] ch).
-      rewrite <- (app_nil_r (kids_nodes [] ch)).
-      apply (kids_run [] ch enc Hrel); [|exact Hk|constructor|].
-      * clear. induction ch as [|p r IH]; constructor; [apply node_goal_all|exact IH].
+    + cbn [join]. rewrite <- E0. fold (kids_nodes [] ch). rewrite <- kids_nodes_arch.
+      rewrite <- (app_nil_r (kids_nodes [] (arch_kids ch))).
+      apply (kids_run [] (arch_kids ch) enc Hrel); [|apply forall_filter; exact Hk|constructor|].
+      * apply forall_filter. clear. induction ch as [|p r IH]; constructor; [apply node_goal_all|exact IH].
       * apply lruns_end. reflexivity.
   - destruct Hwf as (Ha & Hty & Hs). rewrite tar_tree_file in Etar. injection Etar as <-.
     cbn [nodes_of]. eapply lruns_node; [|apply lruns_end; apply lnext_nil].
@@ -708,6 +730,22 @@ Proof. apply removelast_last. Qed.
 Lemma walk_head path name t : exists tl, walk path name t = event_of path name t :: tl.
 Proof. destruct t; eexists; reflexivity. Qed.
 
+(* the type test of tar() on the event of a well-formed tree node *)
+Lemma supported_event path name c : wf_tree c -> supported (fe_mode (event_of path name c)) = archived c.
+Proof.
+  intros Hwf. change (fe_mode (event_of path name c)) with (stat_to_filemode (t_mode (tree_attrs c))).
+  assert (Ha : wf_attrs (tree_attrs c)).
+  { destruct c as [a ch| | | |]; [apply wf_tree_dir in Hwf|..]; cbn [tree_attrs]; apply Hwf. }
+  destruct (kind_tests (t_mode (tree_attrs c)) (wa_mode _ Ha)) as (Kd & Kr & Kl & Kv). cbv zeta in *.
+  unfold supported. rewrite Kd, Kr, Kl, Kv.
+  destruct c as [a ch|a d|a tg|a r|a]; cbn [tree_attrs archived] in *.
+  - apply wf_tree_dir in Hwf. destruct Hwf as (_ & Hty & _). unfold type_is in Hty. rewrite Hty. reflexivity.
+  - destruct Hwf as (_ & Hty & _). unfold type_is in Hty. rewrite Hty. reflexivity.
+  - destruct Hwf as (_ & Hty & _). unfold type_is in Hty. rewrite Hty. reflexivity.
+  - destruct Hwf as (_ & [Hty|Hty]); unfold type_is in Hty; rewrite Hty; reflexivity.
+  - destruct Hwf as (_ & [Hty|Hty]); unfold type_is in Hty; rewrite Hty; reflexivity.
+Qed.
+
 Lemma kids_loop path : forall ch,
   Forall (fun p => ev_goal (snd p)) ch -> wf_kids ch ->
   forall rest fuel n items acc, stops path rest -> (2 * ksize ch + 1 <= fuel)%nat ->
@@ -734,10 +772,14 @@ Proof.
     rewrite Hwalk. cbn [app dir_loop].
     assert (Hp : fe_path (event_of (path ++ [nm]) nm c) = path ++ [nm]) by reflexivity.
     rewrite Hp, removelast_snoc, FS.path_eqb_refl. cbn [negb].
+    rewrite (supported_event (path ++ [nm]) nm c Hwc), tar_kids_cons.
+    destruct (archived c) eqn:Earch; cbn [negb].
+    2: { (* a fifo or socket: nothing written, the loop goes on *)
+         destruct c; try discriminate. cbn [app]. apply (IH Hgr Hwr rest f _ _ _ Hst). cbn [tsize] in Hfuel. lia. }
     assert (Hnm : fe_name (event_of (path ++ [nm]) nm c) = nm) by reflexivity. rewrite Hnm.
     rewrite <- app_assoc.
     rewrite (Hc (path ++ [nm]) nm (walk_kids path r ++ rest) f Hwc); [| |lia].
-    + rewrite tar_kids_cons. destruct (tar_tree (path ++ [nm]) nm c) as [els|]; [|reflexivity].
+    + destruct (tar_tree (path ++ [nm]) nm c) as [els|]; [|reflexivity].
       rewrite (IH Hgr Hwr rest f _ _ _ Hst ltac:(lia)).
       destruct (tar_kids path r) as [rs|]; [|reflexivity]. cbn [dir_body]. reflexivity.
     + (* what follows the child lies in this directory or higher up *)
@@ -840,7 +882,8 @@ Proof.
     assert (Hk : tar_kids path (map (fun p => match p with (nm, c) => (nm, canon c) end) ch) = tar_kids path ch).
     { induction ch as [|[nm c] r IHr]; [reflexivity|].
       inversion IH as [|? ? Hc Hr]; subst. cbn [map]. rewrite !tar_kids_cons. cbn [snd] in Hc.
-      rewrite Hc, (IHr Hr). reflexivity. }
+      assert (Ha : archived (canon c) = archived c) by (destruct c; reflexivity).
+      rewrite Ha, Hc, (IHr Hr). reflexivity. }
     rewrite Hk. reflexivity.
   - cbn [canon]. rewrite !tar_tree_file, !head_elems_attrs. cbn [tree_attrs]. now rewrite head_of_canon.
   - cbn [canon]. rewrite !tar_tree_link, !head_elems_attrs. cbn [tree_attrs]. now rewrite head_of_canon.
@@ -880,4 +923,48 @@ Qed.
 Theorem tar_deterministic t1 t2 : same_tree t1 t2 -> tar_of_tree t1 = tar_of_tree t2.
 Proof.
   intros H. unfold tar_of_tree. rewrite <- (tar_tree_canon t1), <- (tar_tree_canon t2), (same_tree_canon _ _ H). reflexivity.
+Qed.
+
+(* ---------- fifos and sockets are left out cleanly ---------- *)
+
+(* the tree without its fifos and sockets *)
+Fixpoint prune (t : tree) : tree :=
+  match t with
+  | TDir a ch => TDir a (flat_map (fun p => match p with (nm, c) => if archived c then [(nm, prune c)] else [] end) ch)
+  | _ => t
+  end.
+
+Definition prune_kids (ch : list (bytes * tree)) : list (bytes * tree) :=
+  flat_map (fun p => match p with (nm, c) => if archived c then [(nm, prune c)] else [] end) ch.
+
+Lemma archived_prune c : archived (prune c) = archived c.
+Proof. destruct c; reflexivity. Qed.
+
+(* the archive of a tree is the archive of the tree without its fifos and sockets: nothing at
+   all is written for them (no filename element, no goodbye item) *)
+Theorem tar_tree_prune : forall t path name, tar_tree path name (prune t) = tar_tree path name t.
+Proof.
+  induction t as [a ch IH|a d|a tg|a r|a] using tree_ind'; intros path name; try reflexivity.
+  cbn [prune]. fold (prune_kids ch). rewrite !tar_tree_dir. cbv zeta. rewrite !head_elems_attrs. cbn [tree_attrs].
+  assert (Hk : tar_kids path (prune_kids ch) = tar_kids path ch).
+  { induction ch as [|[nm c] r IHr]; [reflexivity|].
+    inversion IH as [|? ? Hc Hr]; subst. cbn [snd] in Hc.
+    unfold prune_kids. cbn [flat_map]. fold (prune_kids r). rewrite (tar_kids_cons path nm c r).
+    destruct (archived c) eqn:Ea; cbn [app]; [|apply IHr, Hr].
+    rewrite tar_kids_cons, archived_prune, Ea, Hc, (IHr Hr). reflexivity. }
+  rewrite Hk. reflexivity.
+Qed.
+
+Theorem tar_of_tree_prune t : tar_of_tree (prune t) = tar_of_tree t.
+Proof. unfold tar_of_tree. now rewrite tar_tree_prune. Qed.
+
+Lemma nodes_of_prune : forall t p, nodes_of p (prune t) = nodes_of p t.
+Proof.
+  induction t as [a ch IH|a d|a tg|a r|a] using tree_ind'; intros p; try reflexivity.
+  cbn [prune nodes_of]. f_equal.
+  induction ch as [|[nm c] r IHr]; [reflexivity|].
+  inversion IH as [|? ? Hc Hr]; subst. cbn [snd] in Hc. cbn [flat_map].
+  destruct c as [a1 ch1|a1 d1|a1 t1|a1 r1|a1]; cbn [archived app flat_map];
+    rewrite ?(IHr Hr); try reflexivity.
+  - rewrite <- (Hc (p ++ [nm])). reflexivity.
 Qed.
